@@ -36,10 +36,10 @@ use ckb_store::{ChainDB, ChainStore};
 use ckb_test_chain_utils::{always_success_cell, create_always_success_tx};
 use ckb_types::core::cell::{BlockCellProvider, HeaderChecker, OverlayCellProvider, ResolvedTransaction, resolve_transaction};
 use ckb_types::core::{
-    BlockBuilder, BlockView, Capacity, EpochNumberWithFraction, ScriptHashType, TransactionBuilder, TransactionView,
+    BlockBuilder, BlockView, Capacity, EpochNumberWithFraction, TransactionBuilder, TransactionView,
     UncleBlockView, capacity_bytes,
 };
-use ckb_types::packed::{self, Byte32, CellInput, CellOutput, OutPoint, ProposalShortId, Script};
+use ckb_types::packed::{self, Byte32, CellInput, CellOutput, OutPoint, ProposalShortId};
 use ckb_types::prelude::*;
 use ckb_types::utilities::DIFF_TWO;
 use ckb_types::utilities::merkle_mountain_range::ChainRootMMR;
@@ -152,16 +152,6 @@ impl HeaderChecker for MainChainHeaders<'_> {
     }
 }
 
-fn hash_type_ok(s: &Script) -> bool {
-    match ScriptHashType::try_from(s.hash_type()) {
-        Ok(ht) => {
-            let v: u8 = ht.into();
-            ckb_constant::consensus::ENABLED_SCRIPT_HASH_TYPE.contains(&v)
-        }
-        Err(_) => false,
-    }
-}
-
 /// One `blk` line: the abstraction of a real block. `db` is a reference store holding exactly the
 /// chain genesis..=parent (a plain ChainDB fed by the block builder, not the node under test).
 fn describe(ids: &mut Ids, consensus: &Consensus, db: Option<&ChainDB>, cyc: u64, blk: &BlockView) -> String {
@@ -183,34 +173,56 @@ fn describe(ids: &mut Ids, consensus: &Consensus, db: Option<&ChainDB>, cyc: u64
     let props: Vec<u64> = blk.data().proposals().into_iter().map(|p| ids.prop(&p)).collect();
     s += &format!(" props={} bytes={}", list(&props), blk.data().serialized_size_without_uncle_proposals());
     let txs = blk.transactions();
-    let ncb = txs.iter().filter(|t| t.is_cellbase()).count();
-    s += &format!(" ncb={}", ncb);
-    if let Some(cb) = txs.first() {
-        let wit_ok = cb
-            .witnesses()
-            .get(0)
-            .and_then(|w| packed::CellbaseWitness::from_slice(&w.raw_data()).ok())
-            .map(|cw| hash_type_ok(&cw.lock()))
-            .unwrap_or(false);
-        let since: u64 = cb.inputs().get(0).map(|i| i.since().unpack()).unwrap_or(0);
-        s += &format!(
-            " cbfirst={} cbouts={} cbdatas={} cbdataempty={} cbwit={} cbnotype={} cblock={} cbsince={}",
-            b01(cb.is_cellbase()),
-            cb.outputs().len(),
-            cb.outputs_data().len(),
-            b01(cb.outputs_data().get(0).map(|d| d.is_empty()).unwrap_or(true)),
-            b01(wit_ok),
-            b01(!cb.outputs().into_iter().any(|o| o.type_().is_some())),
-            b01(cb.outputs().into_iter().all(|o| hash_type_ok(&o.lock()))),
-            since,
-        );
-    } else {
-        s += " cbfirst=0 cbouts=0 cbdatas=0";
-    }
-    let txids: Vec<u64> = txs.iter().map(|t| ids.tx(&t.hash())).collect();
+    // the STRUCTURE of the transactions (round 5): the model derives the cellbase features
+    // (`is_cellbase` count / position, output and data quantities, data emptiness, witness and lock
+    // hash types, the input comparison), the transaction ids and the committed ids from it
+    let tx_descs: Vec<String> = txs
+        .iter()
+        .enumerate()
+        .map(|(i, t)| {
+            let ins: Vec<String> = t
+                .inputs()
+                .into_iter()
+                .map(|inp| {
+                    let op = inp.previous_output();
+                    let idx: u32 = op.index().unpack();
+                    // the null out-point, decided here on the raw fields (not with `is_null`)
+                    let null = op.tx_hash().raw_data().iter().all(|b| *b == 0) && idx == u32::MAX;
+                    let since: u64 = inp.since().unpack();
+                    format!("{}.{}", b01(null), since)
+                })
+                .collect();
+            let outs: Vec<String> = t
+                .outputs()
+                .into_iter()
+                .map(|o| {
+                    let ht: u8 = o.lock().hash_type().into();
+                    format!("{}.{}", b01(o.type_().is_some()), ht)
+                })
+                .collect();
+            let datas: Vec<String> = t.outputs_data().into_iter().map(|d| d.len().to_string()).collect();
+            let wit0 = if i != 0 {
+                "x".to_string()
+            } else {
+                match t.witnesses().get(0) {
+                    None => "x".to_string(),
+                    // molecule verification of the witness is an input of the model
+                    Some(w) => match packed::CellbaseWitness::from_slice(&w.raw_data()) {
+                        Err(_) => "e".to_string(),
+                        Ok(cw) => {
+                            let ht: u8 = cw.lock().hash_type().into();
+                            ht.to_string()
+                        }
+                    },
+                }
+            };
+            let j = |v: Vec<String>| if v.is_empty() { "-".to_string() } else { v.join("/") };
+            format!("{}:{}:{}:{}:{}:{}:{}", ids.tx(&t.hash()), ids.prop(&t.proposal_short_id()), j(ins), j(outs), j(datas), t.witnesses().len(), wit0)
+        })
+        .collect();
+    s += &format!(" tx={}", if tx_descs.is_empty() { "-".to_string() } else { tx_descs.join(";") });
     s += &format!(
-        " txs={} txroot={} phash={} txsnc={}",
-        list(&txids),
+        " txroot={} phash={} txsnc={}",
         b01(blk.transactions_root() == blk.calc_transactions_root()),
         b01(blk.proposals_hash() == blk.calc_proposals_hash()),
         b01(NonContextualBlockTxsVerifier::new(consensus).verify(blk).is_ok()),
@@ -233,8 +245,6 @@ fn describe(ids: &mut Ids, consensus: &Consensus, db: Option<&ChainDB>, cyc: u64
         })
         .collect();
     s += &format!(" uncles={}", if uncles.is_empty() { "-".to_string() } else { uncles.join(";") });
-    let commit: Vec<u64> = txs.iter().skip(1).map(|t| ids.prop(&t.proposal_short_id())).collect();
-    s += &format!(" commit={}", list(&commit));
     s += &format!(
         " xf={} extlen={} xhash={}",
         // the chain service verifies the block as re-read from the store (`insert_block` keeps the
@@ -284,8 +294,9 @@ fn describe(ids: &mut Ids, consensus: &Consensus, db: Option<&ChainDB>, cyc: u64
             }
             // reward
             let (target_lock, reward) = RewardCalculator::new(consensus, db).block_reward_to_finalize(&parent_header).expect("reward");
-            let probe = CellOutput::new_builder().capacity(reward.total).lock(target_lock.clone()).build();
-            let lack = probe.is_lack_of_capacity(Capacity::zero()).unwrap_or(true);
+            // `is_lack_of_capacity` of the reward probe cell is computed by the model from the reward
+            // and the length of the target lock's args
+            let tlargs = target_lock.args().raw_data().len();
             let (cbcap, lockeq) = match txs.first() {
                 Some(cb) => (
                     cb.outputs_capacity().map(|c| c.as_u64()).unwrap_or(0),
@@ -293,7 +304,7 @@ fn describe(ids: &mut Ids, consensus: &Consensus, db: Option<&ChainDB>, cyc: u64
                 ),
                 None => (0, true),
             };
-            s += &format!(" rewlack={} cbcap={} xrew={} cblockeq={}", b01(lack), cbcap, reward.total.as_u64(), b01(lockeq));
+            s += &format!(" tlargs={} cbcap={} xrew={} cblockeq={}", tlargs, cbcap, reward.total.as_u64(), b01(lockeq));
         }
     }
     // script execution is an oracle: every non-cellbase transaction spends always-success cells
@@ -841,6 +852,16 @@ fn ext_of_len(v: &BlockView, len: usize) -> Option<packed::Bytes> {
     Some(Bytes::from(bytes).pack())
 }
 
+/// the cellbase witness rebuilt with the byte `ht` as its lock's hash type
+fn cellbase_witness_hash_type(v: &BlockView, ht: u8, salt: u64) -> BlockView {
+    with_cellbase(v, |cb| {
+        let (_, _, lock) = always_success_cell();
+        let l = lock.clone().as_builder().hash_type(packed::Byte::new(ht)).build();
+        let w = packed::CellbaseWitness::new_builder().lock(l).message(Bytes::from(salt.to_le_bytes().to_vec()).pack()).build();
+        cb.set_witnesses(vec![w.as_bytes().pack()])
+    })
+}
+
 fn pad_cellbase_witness(v: &BlockView, extra: usize) -> BlockView {
     with_cellbase(v, |cb| {
         let (_, _, lock) = always_success_cell();
@@ -1375,6 +1396,24 @@ fn boundary_valid(c: &mut Case, v: BlockView, ph: &BlockView, kind: u64, median:
             c.submit(&at, now, Intent::Valid, "uncle-descent-valid");
             at
         }
+        7 => {
+            // cellbase witness lock hash type: every enabled value (accept) / a value ScriptHashType
+            // knows but that is not enabled, or an unknown one (reject). The accepted witness lock is
+            // the reward target lock `finalization_delay_length` blocks later: the cellbase output-lock
+            // rule then meets the same enabled hash type on the valid side.
+            let good = *c.rng.pick(&[0u8, 1, 2, 4]);
+            let bad = *c.rng.pick(&[3u8, 6]);
+            let salt = c.next_salt();
+            let at = cellbase_witness_hash_type(&v, good, salt);
+            let over = cellbase_witness_hash_type(&v, bad, salt);
+            c.builder.blocks.insert(at.hash(), at.clone());
+            c.bad.insert(over.hash());
+            c.describe_all(&parent, &[&over, &at]);
+            c.submit(&over, now, Intent::Invalid, if bad == 6 { "cb-witness-hash-type-6" } else { "cb-witness-hash-type-3" });
+            c.submit(&at, now, Intent::Valid, "cb-witness-hash-type-enabled");
+            c.out.count(&format!("valid:cellbase-witness-hash-type={}", good));
+            at
+        }
         4 => {
             // the same block with a sixth molecule table field after the extension: not covered by
             // any hash and dropped by the store round trip, so it is the same valid block
@@ -1419,7 +1458,7 @@ fn make_mutant(
         b[9] = 0xee;
         ProposalShortId::new(b)
     };
-    let kind = c.rng.below(50);
+    let kind = c.rng.below(60);
     let r: (BlockView, &'static str) = match kind {
         // ---- header stage
         0 => (v.as_advanced_builder().number(h + 1).build(), "number+1"),
@@ -1663,6 +1702,57 @@ fn make_mutant(
                     (mk(vec![u1, u2]), if wrong > k { "uncle-list-parent-number+1" } else { "uncle-list-parent-number-1" })
                 }
             }
+        }
+        // ---- round 5: the structure the cellbase rules read (`is_cellbase` = one input, the null
+        // out-point, exactly one witness; hash-type bytes known to ScriptHashType vs enabled)
+        50 => (
+            with_cellbase(v, |cb| cb.input(CellInput::new(OutPoint::new(h256!("0x77").pack(), salt as u32), 0))),
+            "cellbase-two-inputs",
+        ),
+        51 => (with_cellbase(v, |cb| cb.witness(Bytes::new().pack())), "cellbase-two-witnesses"),
+        52 => {
+            // an out-point that is almost the null one: zero hash with index 0 / u32::MAX - 1, or index u32::MAX with a non-zero hash
+            let op = match c.rng.below(3) {
+                0 => OutPoint::new(Byte32::zero(), 0),
+                1 => OutPoint::new(Byte32::zero(), u32::MAX - 1),
+                _ => OutPoint::new(h256!("0x1").pack(), u32::MAX),
+            };
+            (with_cellbase(v, |cb| cb.set_inputs(vec![CellInput::new(op, h)])), "cellbase-input-almost-null")
+        }
+        53 => {
+            // a second transaction with the cellbase shape (its `since` does not matter)
+            let since = if c.rng.chance(1, 2) { h } else { 0 };
+            let tx = TransactionBuilder::default()
+                .input(CellInput::new(OutPoint::null(), since))
+                .output(CellOutput::new_builder().capacity(capacity_bytes!(100)).lock(lock.clone()).build())
+                .output_data(Bytes::new())
+                .witness(Bytes::from(salt.to_le_bytes().to_vec()).pack())
+                .build();
+            (with_txs(v, { let mut t = v.transactions(); t.push(tx); t }), "second-tx-cellbase-shaped")
+        }
+        54 | 58 => {
+            // witness lock hash type: 3/5/255 unknown to ScriptHashType, 6/8/254 known (DataN) but not enabled
+            let ht = *c.rng.pick(&[3u8, 5, 6, 8, 0x7f, 254, 255]);
+            (cellbase_witness_hash_type(v, ht, salt), if ht % 2 == 0 { "cellbase-witness-hash-type-known-not-enabled" } else { "cellbase-witness-hash-type-unknown" })
+        }
+        55 => {
+            if h > c.consensus.finalization_delay_length() && c.rng.chance(1, 2) {
+                (with_cellbase(v, |cb| cb.set_outputs_data(vec![])), "cellbase-output-without-data")
+            } else {
+                (with_cellbase(v, |cb| cb.set_outputs(vec![]).set_outputs_data(vec![Bytes::new().pack()])), "cellbase-data-without-output")
+            }
+        }
+        56 => (with_cellbase(v, |cb| cb.set_inputs(vec![CellInput::new_cellbase_input(h - 1)])), "cellbase-since-1"),
+        57 | 59 if h > c.consensus.finalization_delay_length() => {
+            let ht = *c.rng.pick(&[3u8, 6, 8, 254, 255]);
+            (
+                with_cellbase(v, |cb| {
+                    let o = v.transactions()[0].outputs().get(0).unwrap();
+                    let bad_lock = o.lock().as_builder().hash_type(packed::Byte::new(ht)).build();
+                    cb.set_outputs(vec![o.as_builder().lock(bad_lock).build()])
+                }),
+                if ht % 2 == 0 { "cellbase-lock-hash-type-known-not-enabled" } else { "cellbase-lock-hash-type-unknown" },
+            )
         }
         _ => return None,
     };
